@@ -2,7 +2,7 @@ import EaselModel.WorkQueue.Lemmas
 import EaselModel.Dsqdata.CodecLemmas
 import EaselModel.Dsqdata.LoaderLemmas
 import EaselModel.Threads.Lemmas
-import EaselModel.Pipeline.StepOthers
+import EaselModel.Pipeline.Progress
 /-! # C12 — property theorems (statements + glue only; lemmas live in WorkQueue/*.lean, Dsqdata/*.lean)
 
 Work queue (`esl_workqueue.c`): every theorem is about *all* states reachable from `esl_workqueue_Create(size)` by
@@ -252,6 +252,28 @@ theorem pipe_lanes {U T C : Nat} (hU : 0 < U) {s : Pipeline.Sys} (h : Pipeline.R
     (∀ k, s.nchunk ≤ k → k < s.nchunkL → k ∈ (s.lane (k % s.U)).ks) ∧ s.nchunkL ≤ s.T :=
   let i := Pipeline.reachable_inv hU h
   ⟨fun u hu => ⟨i.sorted u hu, i.range u hu⟩, i.complete, i.bounds.2⟩
+
+/-- **No deadlock.** In every reachable state some thread can take a step that is not a wait: the loader, an
+    unpacker, a consumer holding a chunk (`Recycle` never blocks), or a consumer calling `Read` (it returns a chunk or
+    EOF at once). In particular the pipeline never blocks forever as long as consumers keep calling Read and Recycle,
+    and when everything has finished `Read` answers EOF immediately (`readBlocked = false`). -/
+theorem pipe_no_deadlock {U T C : Nat} (hU : 0 < U) {s : Pipeline.Sys} (h : Pipeline.Reachable U T C s) :
+    Pipeline.loaderBlocked s = false ∨ (∃ u < s.U, Pipeline.unpBlocked s u = false) ∨ s.cheld ≠ [] ∨
+      Pipeline.readBlocked s = false :=
+  let i := Pipeline.reachable_inv2 hU h
+  Pipeline.no_deadlock s i.1 i.2 (by rw [Pipeline.reachable_limit h]; omega)
+
+/-- **Buffers are conserved and all destroyed at exit.** Chunk buffers created = live + destroyed; every live buffer
+    is in exactly one place (a lane, the recycling stack, a consumer's hands, the loader's hands), `nalloc` counts
+    them; when the loader thread has exited every buffer it created has been destroyed and none is left anywhere. -/
+theorem pipe_buffers {U T C : Nat} (hU : 0 < U) {s : Pipeline.Sys} (h : Pipeline.Reachable U T C s) :
+    s.live = s.nalloc ∧ s.nextBuf = s.nalloc + s.freed ∧
+    (s.lpc = .done → s.freed = s.nextBuf ∧ s.recycling = [] ∧ s.cheld = [] ∧ s.nalloc = 0) := by
+  have i := (Pipeline.reachable_inv2 hU h).2
+  refine ⟨i.count, i.created, fun hd => ?_⟩
+  have hn := Pipeline.reachable_done h hd
+  have := Pipeline.loader_exit_clean s i hd hn
+  exact ⟨this.1, this.2.1, this.2.2, hn⟩
 
 /-- non-vacuity: 3 chunks through 2 unpackers, two consumers; chunk 0 and 1 returned in order -/
 example : ∃ s, Pipeline.run (Pipeline.Sys.create 2 3 2)
